@@ -60,7 +60,8 @@ def run_property(prop, tier, repo_root, seed, open_findings):
         if r.returns + sum(1 for o in r.obligations if o.kind == 'raises') == 0:
             undecided.append({'name': key, 'reason': 'vacuous: no reachable return or no obligation'})
         obligations.extend((key, ob) for ob in r.obligations)
-    for name in u.get('lemmas', []):
+    # lemmas given as facts to obligations above (use(...)) are proved in the same run
+    for name in list(u.get('lemmas', [])) + sorted(n for n in eng.lemmas_used if n not in u.get('lemmas', [])):
         c = eng.sidecar.lemmas.get(name)
         if c is None:
             undecided.append({'name': 'lemma.' + name, 'reason': 'no such lemma'})
@@ -190,12 +191,14 @@ def run_property(prop, tier, repo_root, seed, open_findings):
             closed[gi].append(r['verdict'] == 'unsat')
         flat = [(gi, o) for gi, g in enumerate(groups) for o in g.induction_obligations(closed[gi])]
         res = solve.discharge_all([o for _, o in flat], timeout_s=timeout, confirm=confirm)
-        ok = {gi: True for gi in range(len(groups))}
+        okv = {}
         last_by = {}
         for (gi, o), r in zip(flat, res):
             account(r)
-            ok[gi] = ok[gi] and good(r)
+            tag = o.name.rsplit('.', 1)[1].split('-')[0]
+            okv[(gi, tag)] = okv.get((gi, tag), True) and good(r)
             last_by[gi] = r['by']
+        ok = {gi: any(v for (g2, _), v in okv.items() if g2 == gi) for gi in range(len(groups))}
         retry = []
         for gi, g in enumerate(groups):
             if ok[gi]:
@@ -319,16 +322,24 @@ class InductionGroup:
         return out
 
     def induction_obligations(self, closed_flags):
+        """base and step, for the goal as stated (.ind-) and, where it differs, for the goal strengthened to
+        the equality of the differing arguments (.indS-); either pair proves the obligation"""
         hyp = list(self.h0) + [c for c, ok in zip(self.cands, closed_flags) if ok]
-        base = self.Ob(self.ob.name + '.ind-base', self.ob.kind,
-                       [z3.Length(self.s0) == 0] + [self.at(h, self.s0) for h in hyp], self.at(self.goal, self.s0), self.ob.info)
         hs = [self.at(h, self.s) for h in hyp]
         # quantified hypotheses are also given instantiated at the last index (what one unfolding needs)
         extra = [x for x in (self.instance(h, self.n - 1) for h in hs) if x is not None]
-        step = self.Ob(self.ob.name + '.ind-step', self.ob.kind,
-                       [self.n > 0] + hs + extra + [self.at(self.goal, self.init)],
-                       self.at(self.goal, self.s), self.ob.info)
-        return [base, step]
+        out = []
+        variants = [('ind', self.ob.goal)]
+        if not self.goal.eq(self.ob.goal):
+            variants.append(('indS', self.goal))
+        for tag, goal in variants:
+            out.append(self.Ob('%s.%s-base' % (self.ob.name, tag), self.ob.kind,
+                               [z3.Length(self.s0) == 0] + [self.at(h, self.s0) for h in hyp], self.at(goal, self.s0),
+                               self.ob.info))
+            out.append(self.Ob('%s.%s-step' % (self.ob.name, tag), self.ob.kind,
+                               [self.n > 0] + hs + extra + [self.at(goal, self.init)],
+                               self.at(goal, self.s), self.ob.info))
+        return out
 
 
 def apply_induction(eng, obligations):
